@@ -157,3 +157,7 @@ fn c01x_control_no_fields() {
     let mut ranges = ifs.ranges(input.into_iter());
     assert!(ranges.next().is_none(), "CONTROL (expected to fail): a one-character word yields no field");
 }
+
+// native replay of a Kani counterexample (bin/vcheck replay): the generated test is included here
+#[cfg(verif_playback)]
+include!("/verif/work/k/playback/splitk_harness.rs");
